@@ -17,7 +17,14 @@ impl Dividers {
     }
     /// the entry for p = 2
     pub closed spec fn wf2(&self) -> bool {
-        self.p == 2 && self.r64 == 0
+        self.p == 2 && self.m64 == 0x8000_0000_0000_0000 && self.r64 == 0 && self.s64 == 0 && self.m16 == 1 && self.s16 == 1
+    }
+    /// the entry for p = 2 is not the odd kind, and conversely
+    pub proof fn lemma_wfa_cases(&self)
+        requires self.wfa()
+        ensures self.pv() == 2 ==> self.wf2() && !self.wf(), self.pv() != 2 ==> self.wf() && !self.wf2(), 2 <= self.pv() < 0x4000_0000,
+    {
+        if self.wf() { self.lemma_wf_facts(); }
     }
     pub open spec fn wfa(&self) -> bool { self.wf() || self.wf2() }
     /// a divider built for a prime >= 3 is the odd kind
